@@ -576,7 +576,7 @@ func (p *parser) parseDecl(cs *ContractSet) error {
 				}
 				parts = append(parts, b)
 			}
-			if len(parts) == 2 {
+			if len(parts) <= 2 {
 				parts = append([]string{p.pkg}, parts...)
 			}
 			fc.Key = strings.Join(parts, ".")
